@@ -244,6 +244,13 @@ class ScratchSys:
                         viols.append(V("C17", "copy_wrong", "copy() does not show an untouched key as in the wrapped database", key=k))
             if set(c) - set(self.keys):
                 viols.append(V("C17", "copy_wrong", "copy() lists foreign keys"))
+            for k, v in c.items():
+                if not isinstance(v, bytes):
+                    viols.append(V("C17", "copy_wrong", "copy() exposes something that is not a stored value (an internal marker?)", key=k, value=repr(v)[:40]))
+                    break
+                if buf.get(k) is DEL and k not in wrapped:
+                    viols.append(V("C17", "copy_wrong", "copy() lists a key whose latest action is a delete and that does not exist underneath", key=k))
+                    break
         except Exception as e:  # noqa
             viols.append(V("C17", "copy_raised", f"copy() raised {type(e).__name__}"))
         if dict(s.cache) != cache_before or d.mutations_while_frozen or d.plain() != wrapped:
